@@ -16,6 +16,10 @@ def dispatch (j : Json) : R Json := do
   | "bracket" => opBracket j
   | "empirical" => opEmpirical j
   | "fitplumb" => opFitPlumb j
+  | "patchset" => opPatchset j
+  | "dump" => opDump j
+  | "ws_combine" => opWsCombine j
+  | "ws_sorted" => opWsSorted j
   | _ => throw s!"unknown op {op}"
 
 partial def loop (hin hout : IO.FS.Stream) : IO Unit := do
